@@ -53,6 +53,7 @@ type Contract struct {
 	ContentProps   []string // content mode only when verifying one of these properties (empty: always)
 	ChanInv     map[string]ast.Expr // channel class name -> invariant over "m"
 	ChanNoDrop  map[string]bool
+	ChanOnce    map[string]bool // channel <class> closeonce
 	Assumes     []*AnchorClause
 	Lines       []string
 }
@@ -402,8 +403,17 @@ func parseContractFile(path, pkg string) (*ContractFile, error) {
 				cur.ChanNoDrop[name] = true
 				continue
 			}
+			if w3 == "closeonce" {
+				// the channel is closed by this function only, at most once: close(ch) must be shown not to have
+				// happened yet (a non-blocking receive that takes its default branch shows it)
+				if cur.ChanOnce == nil {
+					cur.ChanOnce = map[string]bool{}
+				}
+				cur.ChanOnce[name] = true
+				continue
+			}
 			if w3 != "invariant" {
-				return nil, fail(fmt.Errorf("channel <name> invariant <expr> | channel <name> nodrop"))
+				return nil, fail(fmt.Errorf("channel <name> invariant <expr> | channel <name> nodrop | channel <name> closeonce"))
 			}
 			e, err := parseExprSrc(r3)
 			if err != nil {
